@@ -2,7 +2,7 @@
 DistributedRateLimiter over a shared KVStore)."""
 from __future__ import annotations
 
-from props.c07_core import Backend, Drv
+from props.c07_core import Backend, Drv, P, R
 
 from happysimulator.components.datastore import KVStore
 from happysimulator.components.rate_limiter import (AdaptivePolicy, DistributedRateLimiter, FixedWindowPolicy,
@@ -30,28 +30,28 @@ class RateLimitedTokenBucketDrv(_RLDrv):
     covers = ("RateLimitedEntity", "TokenBucketPolicy")
 
     def policy(self):
-        return TokenBucketPolicy(capacity=1.0, refill_rate=2.0)
+        return TokenBucketPolicy(capacity=1.0, refill_rate=R(2.0))
 
 
 class RateLimitedLeakyBucketDrv(_RLDrv):
     covers = ("RateLimitedEntity", "LeakyBucketPolicy")
 
     def policy(self):
-        return LeakyBucketPolicy(leak_rate=2.0)
+        return LeakyBucketPolicy(leak_rate=R(2.0))
 
 
 class RateLimitedSlidingWindowDrv(_RLDrv):
     covers = ("RateLimitedEntity", "SlidingWindowPolicy")
 
     def policy(self):
-        return SlidingWindowPolicy(window_size_seconds=1.0, max_requests=1)
+        return SlidingWindowPolicy(window_size_seconds=P(1.0), max_requests=1)
 
 
 class RateLimitedFixedWindowDrv(_RLDrv):
     covers = ("RateLimitedEntity", "FixedWindowPolicy")
 
     def policy(self):
-        return FixedWindowPolicy(requests_per_window=1, window_size=0.5)
+        return FixedWindowPolicy(requests_per_window=1, window_size=P(0.5))
 
 
 class RateLimitedAdaptiveDrv(_RLDrv):
@@ -59,7 +59,7 @@ class RateLimitedAdaptiveDrv(_RLDrv):
     ops = ("request", "request_fail")
 
     def policy(self):
-        self.pol = AdaptivePolicy(initial_rate=2.0, min_rate=1.0, max_rate=4.0, window_size=0.5)
+        self.pol = AdaptivePolicy(initial_rate=R(2.0), min_rate=R(1.0), max_rate=R(4.0), window_size=P(0.5))
         return self.pol
 
     def request(self, i, op):
@@ -77,7 +77,7 @@ class InductorDrv(Drv):
 
     def build(self, cfg):
         self.backend = Backend("backend", cfg.L, self.h.out)
-        self.ind = Inductor("inductor", downstream=self.backend, time_constant=1.0, queue_capacity=2)
+        self.ind = Inductor("inductor", downstream=self.backend, time_constant=P(1.0), queue_capacity=2)
         return [self.ind, self.backend]
 
     def request(self, i, op):
@@ -107,9 +107,9 @@ class DistributedRateLimiterDrv(Drv):
     def build(self, cfg):
         self.store = KVStore("store", read_latency=cfg.L / 2, write_latency=cfg.L / 2)
         self.a = DistributedRateLimiter("rl-a", downstream=self.h.out, backing_store=self.store, global_limit=2,
-                                        window_size=1.0)
+                                        window_size=P(1.0))
         self.b = DistributedRateLimiter("rl-b", downstream=self.h.out, backing_store=self.store, global_limit=2,
-                                        window_size=1.0)
+                                        window_size=P(1.0))
         return [self.store, self.a, self.b]
 
     def request(self, i, op):
